@@ -586,6 +586,8 @@ def probe_fixes():
         'fx_phi_incoming': ok([(10, ('phi', [(1, 0), (2, 0)]))], ('del_incoming', 10, 1)),
         'fx_jump_delete': ok([(10, ('jump', [('a', 0), ('b', 1)], [('lab_yes', 1), ('lab_no', 1)]))],
                              ('detach_delete', 10)),
+        'fx_setter': ok([(10, ('plain', [('a', 0), ('b', 0)]))], ('set_var', 10, 'a', 1)),
+        'fx_rfb': ok([(10, ('jump', [], [('target', 1)]))], ('remove_from_block', 10)),
     }
 
 
